@@ -94,10 +94,7 @@ Engine.st_AugAssign = _aug
 
 
 # ---- np.array([scalars])
-_prev_np_array = calls.NP_EXT.get("np.array")
-
-
-def _np_array(E, node, st):
+def _np_array(E, node, st, _prev_np_array=None):
     a0 = node.args[0] if node.args else None
     if isinstance(a0, (ast.List, ast.Tuple)):
         vals = [num_of_bool(E.ev(e, st)) for e in a0.elts]
@@ -112,16 +109,9 @@ def _np_array(E, node, st):
             return Ref(rid)
     if _prev_np_array is not None:
         return _prev_np_array(E, node, st)
-    v = E.ev(node.args[0], st)
-    if isinstance(v, (Ref, Arr)):
-        a = E.deref(v, st)
-        rid = next(E.ids)
-        st.heap[rid] = Arr(a.data, a.shape, a.elem)
-        return Ref(rid)
-    raise OutsideSubset("np.array of non-array")
+    return _builtin("np.array", E, node, st)
 
 
-calls.NP_EXT["np.array"] = _np_array
 
 
 # ---- (3) a[:] = scalar on a 1-D heap array: every element becomes that scalar.
@@ -203,20 +193,121 @@ def _np_extreme(path):
                 if a.rank != 1 or a.elem not in ("int", "real"):
                     raise OutsideSubset(path + " of rank-%d %s array" % (a.rank, a.elem))
                 E.emit("nonempty:%s@%s" % (path, E.cur_line), st, toz(a.shape[0]) > 0, "index")
-                m = E.fresh(path[3:], I if a.elem == "int" else R)
+                cache = E.__dict__.setdefault("_c06_extreme", {})      # the extreme of one array value is one term
+                ck = (path, a.data.get_id(), toz(a.shape[0]).get_id())
+                if ck not in cache:
+                    cache[ck] = E.fresh(path[3:], I if a.elem == "int" else R)
+                m = cache[ck]
                 i, j = E.fresh("i", I), E.fresh("j", I)
                 el = z3.Select(a.data, i)
                 st.pc.append(z3.ForAll([i], z3.Implies(z3.And(i >= 0, i < toz(a.shape[0])), el <= m if is_max else el >= m), patterns=[el]))
                 st.pc.append(z3.Exists([j], z3.And(j >= 0, j < toz(a.shape[0]), z3.Select(a.data, j) == m)))
                 return m
-        saved = calls.NP_EXT.pop(path)
-        try:
-            return calls.np_call(E, path, node, st)
-        finally:
-            calls.NP_EXT[path] = saved
+        return _builtin(path, E, node, st)
     return h
 
 
-for _p in ("np.max", "np.min"):
-    if _p not in calls.NP_EXT:
-        calls.NP_EXT[_p] = _np_extreme(_p)
+
+
+# ---- (6) np.argmin(np.sum((X - y) ** 2.0, axis=1)): index of the row of X (n x d, d statically known) nearest to the point y
+#      (squared Euclidean distance); numpy returns the FIRST minimal index; an empty X raises (obligation).
+def _sqdist(E, X, y, m, d):
+    tot = z3.RealVal(0)
+    for c in range(d):
+        diff = z3.Select(z3.Select(X.data, m), z3.IntVal(c)) - z3.Select(y.data, z3.IntVal(c))
+        tot = tot + diff * diff
+    return tot
+
+
+def _np_argmin(E, node, st, _prev=None):
+    a = node.args[0] if len(node.args) == 1 else None
+    ok = (isinstance(a, ast.Call) and isinstance(a.func, ast.Attribute) and a.func.attr == "sum" and len(a.args) == 1
+          and [(k.arg, getattr(k.value, "value", None)) for k in a.keywords] == [("axis", 1)]
+          and isinstance(a.args[0], ast.BinOp) and isinstance(a.args[0].op, ast.Pow) and isinstance(a.args[0].right, ast.Constant)
+          and a.args[0].right.value in (2, 2.0) and isinstance(a.args[0].left, ast.BinOp) and isinstance(a.args[0].left.op, ast.Sub))
+    if not ok or not isinstance(E.ev(a.func.value, st), calls.NpV):
+        if _prev is not None:
+            return _prev(E, node, st)
+        raise OutsideSubset("np.argmin of this expression (line %s)" % getattr(node, "lineno", "?"))
+    l, r = E.ev(a.args[0].left.left, st), E.ev(a.args[0].left.right, st)
+    if not (isinstance(l, (Ref, Arr)) and isinstance(r, (Ref, Arr))):
+        raise OutsideSubset("np.argmin operands")
+    L, Rr = E.deref(l, st), E.deref(r, st)
+    sign_flip = False
+    if L.rank == 1 and Rr.rank == 2:
+        L, Rr = Rr, L          # (y - X)**2 == (X - y)**2
+    if not (L.rank == 2 and Rr.rank == 1 and L.elem == "real" and Rr.elem == "real"):
+        raise OutsideSubset("np.argmin operand ranks")
+    d = _static_len(toz(L.shape[1]), st)
+    if d is None:
+        raise OutsideSubset("np.argmin: number of coordinates not statically known")
+    n = toz(L.shape[0])
+    E.emit("shape-eq@%s" % E.cur_line, st, toz(Rr.shape[0]) == d, "shape")
+    E.emit("nonempty:np.argmin@%s" % E.cur_line, st, n > 0, "index")
+    j = E.fresh("argmin", I)
+    m = E.fresh("m", I)
+    dj, dm = _sqdist(E, L, Rr, j, d), _sqdist(E, L, Rr, m, d)
+    st.pc.append(z3.And(j >= 0, j < n))
+    st.pc.append(z3.ForAll([m], z3.Implies(z3.And(m >= 0, m < n), z3.And(dj <= dm, z3.Implies(m < j, dj < dm))),
+                           patterns=[z3.Select(L.data, m)]))
+    return j
+
+
+
+
+# ---- (7) np.sum(A >= c, axis=1) for a 2-D array with a statically known number of columns: per-row count (int array)
+def _np_sum(E, node, st, _prev_np_sum=None):
+    kws = [(k.arg, getattr(k.value, "value", None)) for k in node.keywords]
+    a = node.args[0] if len(node.args) == 1 else None
+    if kws == [("axis", 1)] and isinstance(a, ast.Compare) and len(a.ops) == 1 and isinstance(a.ops[0], (ast.GtE, ast.Gt, ast.NotEq, ast.Lt, ast.LtE, ast.Eq)):
+        base = E.ev(a.left, st)
+        rhs = num_of_bool(E.ev(a.comparators[0], st))
+        if isinstance(base, (Ref, Arr)) and sort_kind(rhs) in ("int", "real"):
+            A = E.deref(base, st)
+            ncol = _static_len(toz(A.shape[1]), st) if A.rank == 2 else None
+            if ncol is not None and A.elem in ("int", "real"):
+                i = E.fresh("i", I)
+                tot = z3.IntVal(0)
+                for c in range(ncol):
+                    tot = tot + z3.If(toz(E.compare(a.ops[0], z3.Select(z3.Select(A.data, i), z3.IntVal(c)), rhs)), z3.IntVal(1), z3.IntVal(0))
+                out = Arr(E.fresh("rowcount", arr_sort("int", 1)), [A.shape[0]], "int")
+                st.pc.append(z3.ForAll([i], z3.Select(out.data, i) == tot, patterns=[z3.Select(out.data, i)]))
+                rid = next(E.ids)
+                st.heap[rid] = out
+                return Ref(rid)
+        raise OutsideSubset("np.sum(<comparison>, axis=1) of this operand")
+    if _prev_np_sum is not None:
+        return _prev_np_sum(E, node, st)
+    return _builtin("np.sum", E, node, st)
+
+
+def _builtin(path, E, node, st):
+    saved = calls.NP_EXT.pop(path)
+    try:
+        return calls.np_call(E, path, node, st)
+    finally:
+        calls.NP_EXT[path] = saved
+
+
+def install():
+    """(re)install this module's numpy handlers on top of whatever is registered now; forms they do not recognise are
+    passed on to the previously registered handler (or the engine's own).  Idempotent; contracts/c06_mappers.py calls it
+    after every extension module has been imported."""
+    def wrap(path, mine):
+        prev = calls.NP_EXT.get(path)
+        if getattr(prev, "_c06", False):
+            return
+
+        def h(E, node, st):
+            return mine(E, node, st, prev)
+        h._c06 = True
+        calls.NP_EXT[path] = h
+    wrap("np.array", _np_array)
+    wrap("np.argmin", _np_argmin)
+    wrap("np.sum", _np_sum)
+    for path in ("np.max", "np.min"):
+        if path not in calls.NP_EXT:
+            calls.NP_EXT[path] = _np_extreme(path)
+
+
+install()
